@@ -6,7 +6,8 @@ R1  MU_LONG_WAIT is turned on only by the enqueue transition of a thread that ha
     compared with a positive loop-invariant constant (CFG shape).
 R2  every acquire transition of a thread that has not waited (fast paths, try-locks, lock_slow entered with clear = 0 before its first sleep)
     succeeds only on words with MU_LONG_WAIT clear - and, for readers, MU_WRITER_WAITING clear; woken threads ignore both.
-R3  a woken thread that must wait again re-queues at the front of the queue."""
+R3  a woken thread that must wait again re-queues at the front of the queue.
+R4  the thread that raised MU_LONG_WAIT clears it in its own acquiring transition for every pre-state (nobody else clears it, R1)."""
 from .. import util, mumodel, ir as IR
 from ..cfg import cfg_of
 from ..report import Violation, AnalysisBroken
@@ -61,6 +62,7 @@ def run(ctx, rep):
                 rep.violate(Violation('C14.R1', s.where(),
                     'MU_LONG_WAIT is cleared by a transition that does not acquire the lock (effect dW=%d dR=%d dSPIN=%d): the long waiter loses its protection while it is still waiting [entry %s]' % (dW, dc, ds, r.entry),
                     site='%s/long-wait-cleared' % s.fn.name))
+    check_long_wait_owner(eng, K, rep, 'C14.R4')
     # R3: re-queue position
     for r in eng.records:
         if r.kind == 'call' and r.callee in ('nsync_dll_make_last_in_list_', 'nsync_dll_make_first_in_list_') and r.inst.fn.name == LS:
@@ -107,6 +109,28 @@ def run(ctx, rep):
     return rep.finish(
         explanation='R1-R3 judged on the transitions and list operations recorded by the abstract interpreter (who sets / clears MU_LONG_WAIT, which acquire transitions tolerate it, where woken threads re-queue) plus a CFG shape check of the wake-up counter.',
         trusted_base=['clang 14 IR', 'nsa/symex.py'])
+
+def check_long_wait_owner(eng, K, rep, rid):
+    """the thread that turned MU_LONG_WAIT on (by its re-queue transition) turns it off in the transition with which it finally acquires,
+    whatever the other bits are.  Nobody else clears the bit (R1), so if its owner leaves it set, it outlives the long wait: every thread that
+    has not waited then finds the mutex un-acquirable although it is free, queues itself, and - with no holder left to wake it - sleeps for good."""
+    LONG = K['MU_LONG_WAIT']
+    rep.rule(rid, 'the thread that raised MU_LONG_WAIT clears it in its own acquiring transition (for every pre-state)')
+    n = 0
+    for r in eng.records:
+        if r.kind != 'trans' or r.wc.name != 'mu' or not r.pairs or not getattr(r, 'long_waiter', False):
+            continue
+        if not (r.hold == 'none' and r.new_hold in ('W', 'R')):
+            continue
+        s = r.site(eng.wrappers)
+        bad = next(((e, nn) for e, nn in r.pairs if nn & LONG), None)
+        n += 1
+        rep.instance(rid, 'acquire by the thread that raised MU_LONG_WAIT at %s [%s]' % (s.where(), r.entry)); rep.oblig(rid, bad is None)
+        if bad is not None:
+            rep.violate(Violation(rid, s.where(),
+                'the long waiter can acquire on word %s and leave MU_LONG_WAIT set (%s): no other transition clears the bit, so from then on threads that have not waited cannot acquire the mutex even when it is free; they queue behind nobody and are never woken [entry %s]'
+                % (C01.bits(K, bad[0]), C01.bits(K, bad[1]), r.entry), site='%s/long-wait-leak' % s.fn.name))
+    return n
 
 def paths_reach(fn, a, b, avoid=()):
     from ..cfg import paths_avoiding
